@@ -63,6 +63,37 @@ def tunnel_run(sc):
     return res, (bytes(s.written) if s else b""), net.resolved, wrapped
 
 
+def redirect_run(first_exempt):
+    """connect() to a host that answers with a redirect to a host of the OTHER exemption status: the proxy decision is
+    taken per target.  Returns (result, [(host, port) resolved ...], [first bytes written on each connection])."""
+    import websocket
+    from websocket import _http
+    draw = bytes(range(16))
+    key = base64.b64encode(draw)
+    ws_ok = (b"HTTP/1.1 101 SP\r\nUpgrade: websocket\r\nConnection: Upgrade\r\nSec-WebSocket-Accept: " + accept_for(key) + b"\r\n\r\n")
+    ok200 = b"HTTP/1.1 200 X\r\n\r\n"
+    first, second = ("inside.corp.test", "outside.test") if first_exempt else ("outside.test", "inside.corp.test")
+    redir = b"HTTP/1.1 302 Found\r\nLocation: ws://" + second.encode() + b":8081/next\r\n\r\n"
+    if first_exempt:
+        conns = [{"addrs": ["A"], "script": [("D", redir)]}, {"addrs": ["A"], "script": [("D", ok200), ("D", ws_ok)]}]
+    else:
+        conns = [{"addrs": ["A"], "script": [("D", ok200), ("D", redir)]}, {"addrs": ["A"], "script": [("D", ws_ok)]}]
+    net = FakeNet(conns)
+    saved = (_http.socket, os.urandom)
+    _http.socket = net
+    os.urandom = lambda n: draw if n == 16 else saved[1](n)
+    ws = websocket.WebSocket()
+    try:
+        try:
+            ws.connect(f"ws://{first}:8080/start", http_proxy_host="proxy.test", http_proxy_port=3128, http_no_proxy=[".corp.test"])
+            res = "ok"
+        except Exception as e:
+            res = "raise:" + exn_class(e)
+    finally:
+        _http.socket, os.urandom = saved
+    return res, list(net.resolved), [bytes(s.written).split(b"\r\n")[0].decode("latin-1") for s in net.all_socks()]
+
+
 def run(ctx):
     from websocket._url import _is_no_proxy_host, get_proxy_info
     T = Tally()
@@ -143,11 +174,24 @@ def run(ctx):
                     if res != "raise:ProxyErr" or rest:
                         T.fail("spec", pub, "raise:ProxyErr and nothing further sent", f"{res} {rest[:60]!r}", {"site": "_tunnel", "cls": "status-gate", "status": status},
                                what="the client proceeds through the proxy only on a 200 reply")
+    # 5. a redirect to a host of the other exemption status: the decision is taken again for the new target
+    for first_exempt in (True, False):
+        res, resolved, firsts = redirect_run(first_exempt)
+        T.case(("redirect", first_exempt), nontrivial=True, bucket="redirect", sample={"first_exempt": first_exempt, "resolved": resolved, "first_lines": firsts})
+        if first_exempt:
+            want = ("ok", [("inside.corp.test", 8080), ("proxy.test", 3128)], ["GET /start HTTP/1.1", "CONNECT outside.test:8081 HTTP/1.1"])
+        else:
+            want = ("ok", [("proxy.test", 3128), ("inside.corp.test", 8081)], ["CONNECT outside.test:8080 HTTP/1.1", "GET /next HTTP/1.1"])
+        if (res, resolved, firsts) != want:
+            T.fail("spec", {"kind": "redirect", "first_exempt": first_exempt}, str(want), str((res, resolved, firsts)),
+                   {"site": "connect", "cls": "proxy-decision-per-target", "first_exempt": first_exempt},
+                   what="after a redirect the proxy decision must be taken for the new target (exempt hosts direct, others through the proxy)")
     return T.result(
         "exemption rule against the property text (look-alike suffixes, exact hosts, '*', CIDR blocks for every prefix length 0..32 "
         "inside/outside); environment variable selection and no_proxy precedence; the verified model against the implementation "
         "on 12932 generated cases (coqc vm_compute); CONNECT tunnel through a simulated proxy: 3 URLs x 4 credential forms x 7 reply "
-        "statuses, first bytes compared with the documented request, status gate, TLS-after-tunnel ordering",
+        "statuses, first bytes compared with the documented request, status gate, TLS-after-tunnel ordering; redirects between an exempt and a "
+        "non-exempt host in both directions (decision per target)",
         what_is_proved="see Properties/C19.v")
 
 
@@ -160,4 +204,6 @@ def replay(ctx, sc):
     if sc.get("fn") == "is_no_proxy_host":
         from websocket._url import _is_no_proxy_host
         return {"result": bool(_is_no_proxy_host(sc["host"], sc["no_proxy"]))}
+    if sc.get("kind") == "redirect":
+        return {"observed": str(redirect_run(sc["first_exempt"]))}
     return {"note": "rerun ./check C19 quick"}
